@@ -1,6 +1,7 @@
 package main
 
 import (
+	"context"
 	"encoding/json"
 	"fmt"
 	"math"
@@ -413,21 +414,46 @@ func retainsIO(anc, child *GenomeSpec) string {
 // options
 
 // baseOptions returns a complete, valid option set (XOR-like defaults).
-func baseOptions() *neat.Options {
+// decoyOptions: settings no scenario uses. Every options object of the harness is a by-value copy
+// of a decoy that has already been used (its context was requested), and contexts may be nested in a
+// parent context that carries a decoy: anything the library remembers about an Options value or a
+// context instead of reading the options it is handed shows up as the decoy's behaviour.
+func decoyOptions() *neat.Options {
 	return &neat.Options{
-		TraitParamMutProb: 0.5, TraitMutationPower: 1.0, WeightMutPower: 2.5,
-		DisjointCoeff: 1.0, ExcessCoeff: 1.0, MutdiffCoeff: 0.4, CompatThreshold: 3.0,
-		AgeSignificance: 1.0, SurvivalThresh: 0.2,
-		MutateOnlyProb: 0.25, MutateRandomTraitProb: 0.1, MutateLinkTraitProb: 0.1, MutateNodeTraitProb: 0.1,
-		MutateLinkWeightsProb: 0.9, MutateToggleEnableProb: 0.0, MutateGeneReenableProb: 0.0,
-		MutateAddNodeProb: 0.03, MutateAddLinkProb: 0.08, MutateConnectSensors: 0.5,
-		InterspeciesMateRate: 0.001, MateMultipointProb: 0.3, MateMultipointAvgProb: 0.3, MateSinglepointProb: 0.3,
-		MateOnlyProb: 0.2, RecurOnlyProb: 0.0,
-		PopSize: 6, DropOffAge: 15, NewLinkTries: 20, PrintEvery: 1000, BabiesStolen: 0, NumRuns: 1, NumGenerations: 3,
-		EpochExecutorType: neat.EpochExecutorTypeSequential, GenCompatMethod: neat.GenomeCompatibilityMethodLinear,
-		NodeActivators: []neatmath.NodeActivationType{neatmath.SigmoidSteepenedActivation}, NodeActivatorsProb: []float64{1.0},
+		TraitParamMutProb: 0.9, TraitMutationPower: 3.0, WeightMutPower: 0.1,
+		DisjointCoeff: 0.1, ExcessCoeff: 7.0, MutdiffCoeff: 3.0, CompatThreshold: 1e-9,
+		AgeSignificance: 2.0, SurvivalThresh: 0.9,
+		MutateOnlyProb: 0.9, MutateAddNodeProb: 0.9, MutateAddLinkProb: 0.9, MateOnlyProb: 0.9,
+		PopSize: 3, DropOffAge: 2, NewLinkTries: 1, PrintEvery: 1000, BabiesStolen: 1, NumRuns: 7, NumGenerations: 9,
+		EpochExecutorType: neat.EpochExecutorTypeParallel, GenCompatMethod: neat.GenomeCompatibilityMethodFast,
+		NodeActivators: []neatmath.NodeActivationType{neatmath.TanhActivation}, NodeActivatorsProb: []float64{1.0},
 		LogLevel: "error",
 	}
+}
+
+func baseOptions() *neat.Options {
+	used := decoyOptions()
+	_ = used.NeatContext()
+	cp := *used // a by-value copy of an options value that has been used before
+	o := &cp
+	o.TraitParamMutProb, o.TraitMutationPower, o.WeightMutPower = 0.5, 1.0, 2.5
+	o.DisjointCoeff, o.ExcessCoeff, o.MutdiffCoeff, o.CompatThreshold = 1.0, 1.0, 0.4, 3.0
+	o.AgeSignificance, o.SurvivalThresh = 1.0, 0.2
+	o.MutateOnlyProb, o.MutateRandomTraitProb, o.MutateLinkTraitProb, o.MutateNodeTraitProb = 0.25, 0.1, 0.1, 0.1
+	o.MutateLinkWeightsProb, o.MutateToggleEnableProb, o.MutateGeneReenableProb = 0.9, 0.0, 0.0
+	o.MutateAddNodeProb, o.MutateAddLinkProb, o.MutateConnectSensors = 0.03, 0.08, 0.5
+	o.InterspeciesMateRate, o.MateMultipointProb, o.MateMultipointAvgProb, o.MateSinglepointProb = 0.001, 0.3, 0.3, 0.3
+	o.MateOnlyProb, o.RecurOnlyProb = 0.2, 0.0
+	o.PopSize, o.DropOffAge, o.NewLinkTries, o.PrintEvery, o.BabiesStolen, o.NumRuns, o.NumGenerations = 6, 15, 20, 1000, 0, 1, 3
+	o.EpochExecutorType, o.GenCompatMethod = neat.EpochExecutorTypeSequential, neat.GenomeCompatibilityMethodLinear
+	o.NodeActivators, o.NodeActivatorsProb = []neatmath.NodeActivationType{neatmath.SigmoidSteepenedActivation}, []float64{1.0}
+	o.LogLevel = "error"
+	return o
+}
+
+// nestedCtx carries opts inside a parent context that already carries (decoy) options.
+func nestedCtx(opts *neat.Options) context.Context {
+	return neat.NewContext(neat.NewContext(context.Background(), decoyOptions()), opts)
 }
 
 // ---------------------------------------------------------------------------
